@@ -144,6 +144,10 @@ BASES = [
         '1040.number_dependents': '2', '1040.dependent_0_ctc': 'yes', '1040.dependent_1_odc': 'yes', '1040_s8812.number_under_17': '1',
         '1040.number_1098': '1', '1098:0.box_1': '2000',
     }), per_year={2021: {'1040_s8812.number_under_18': '1', '1040_s8812.principal_abode_us': 'yes', '1040_s8812.number_children_letter': '1'}}),
+    Base('B8-nc-only', ['nc_d-400'], dict(W2, **{
+        '1040.state': 'NC', 'nc_d-400.county': 'Wake', 'nc_d-400.nc_residents': 'yes', '1040.filing_status': 'MarriedFilingJointly',
+        '1040.number_1098': '1', '1098:0.box_1': '2500', 'nc_d-400.no_consumer_use_tax': 'yes',
+    })),
     Base('B7-dense', ['1040'], {
         '1040.number_w-2': '2', 'w-2:1.belongs_to': 'spouse', '1040.filing_status': 'MarriedFilingJointly',
         '1040.number_1099-int': '1', '1040.number_1099-div': '1', '1040.number_1099-g': '1', '1040.number_1098': '1',
@@ -203,6 +207,21 @@ def alphabet(inp, pair=False):
 
 
 # --------------------------------------------------------------------------
+KINDS = {}     # (year, input name) -> 'S' structural (bool/count/enum) | 'M' money/text
+
+
+def input_kind(year, name):
+    k = (year, name)
+    if k not in KINDS:
+        from habutax import form as hform
+        sec, base = name.split('.')
+        fn, inst = hform.name_and_instance(sec)
+        C = {c.form_name: c for c in available_forms[year]}[fn]
+        for i in C(instance=inst).inputs():
+            KINDS[(year, i.name())] = 'S' if isinstance(i, (hi.BooleanInput, hi.IntegerInput, hi.EnumInput)) else 'M'
+    return KINDS.get(k, 'M')
+
+
 class Node(object):
     """result summary handed back from a worker"""
     __slots__ = ('assign', 'asked', 'oclass', 'viols', 'counters', 'extra')
@@ -297,6 +316,16 @@ def base_by_name(name, year):
     raise KeyError(name)
 
 
+def structural_pairs(year):
+    """second deviations: at least one of the two deviating inputs is structural (boolean, count, enumeration);
+    money x money and text x text pairs are left out (stated bound of the thorough tier)"""
+    def f(name, alt, assign):
+        if input_kind(year, name) == 'S':
+            return True
+        return any(input_kind(year, n) == 'S' for n in assign)
+    return f
+
+
 def explore_all(run, pid, tier, years=(2021, 2022, 2023), depth_quick=1, depth_thorough=2, bases=None,
                 deep_quick=('B0-single-wage',), finding_key=None):
     """explore every base of every year; feeds a runner.Run"""
@@ -306,11 +335,13 @@ def explore_all(run, pid, tier, years=(2021, 2022, 2023), depth_quick=1, depth_t
                 continue
             if tier == 'thorough':
                 depth = depth_thorough
+                if depth >= 2 and bases is None and not (base.name == 'B0-single-wage' or (year == 2023 and base.name in QUICK_BASES)):
+                    depth = 1      # two deviations on B0 (all years) and on the five quick bases of 2023; one elsewhere
             else:
                 depth = depth_quick
                 if bases is None and base.name not in QUICK_BASES:
                     depth = 0      # the other bases contribute their base return only in the quick tier
-            st = explore(year, base, depth, pid)
+            st = explore(year, base, depth, pid, pair_filter=structural_pairs(year) if depth >= 2 else None)
             run.states += st['nodes']
             run.transitions += st['transitions']
             run.traces += st['nodes']
